@@ -630,7 +630,7 @@ def forms_cases(tier, known=()):
                     if aligned or not fits:
                         out.append(dict(what='recv', kind=kind, L=L,
                                         form=['into', 'array-i', B, off]))
-                    elif KF_MULTIBYTE in known and L <= 8:
+                    elif L <= 8:
                         out.append(dict(what='recv', kind=kind, L=L,
                                         form=['into', 'array-i', B, off],
                                         kf=KF_MULTIBYTE))
